@@ -115,6 +115,9 @@ pub fn render(v: &Value) -> String {
     "convert_capitalize" => { doc.insert("transform".into(), tr(json!({"convert": {"source": "$A", "toCase": "capitalize"}}))); }
     "convert_separated" => { doc.insert("transform".into(), tr(json!({"convert": {"source": "$A", "toCase": "snakeCase", "separatedBy": ["caseChange", "underscore", "dash"]}}))); }
     "substring_negative" => { doc.insert("transform".into(), tr(json!({"substring": {"source": "$A", "startChar": -2, "endChar": -1}}))); }
+    // indices that cross for some capture lengths only (start 2 / end -2 crosses for exactly three characters)
+    "substring_crossed" => { doc.insert("transform".into(), tr(json!({"substring": {"source": "$A", "startChar": 2, "endChar": -2}}))); }
+    "substring_reversed" => { doc.insert("transform".into(), tr(json!({"substring": {"source": "$A", "startChar": 2, "endChar": 1}}))); }
     "replace_valid" => { doc.insert("transform".into(), tr(json!({"replace": {"source": "$A", "replace": "(?<first>.)", "by": "$first$first"}}))); }
     "chain" => { doc.insert("transform".into(), json!({"X": {"convert": {"source": "$A", "toCase": "kebabCase"}}, "Y": {"substring": {"source": "$X", "startChar": 1}}, "Z": {"convert": {"source": "$Y", "toCase": "camelCase"}}})); }
     _ => {}
@@ -196,7 +199,7 @@ fn classify(code: i32, stderr: &str) -> &'static str {
 const TEXTS: [(&str, &str); 4] = [
   // captured texts that stress per-character work: upper/lower runs with multi-byte letters, title-case digraphs,
   // letters whose case mapping changes length, combining marks, separators at the edges
-  ("d.js", "foo(ÉÀb); foo(XMLÉb); foo(ǅemal); foo(ßtraSSe); foo(İi̇I); foo(aB_c__D); foo(_); foo($x); foo(ÀÉ); foo(é); foo(x̃Ỹz); foo(ＡＢc); foo(\"ÉÀb-Çd_ÊF\");\n"),
+  ("d.js", "foo(ÉÀb); foo(XMLÉb); foo(ǅemal); foo(ßtraSSe); foo(İi̇I); foo(aB_c__D); foo(_); foo($x); foo(ÀÉ); foo(é); foo(x̃Ỹz); foo(ＡＢc); foo(\"ÉÀb-Çd_ÊF\"); foo(ab); foo(abc); foo(abcd); foo(\"\");\n"),
   ("a.js", "foo(b1); foo(bar, 1); foo(\"é🦀\", [1, 2, 3]); [, 2, x]; foo([1, [2, 3]]);\nclass A { foo(q) {} }\n"),
   ("b.js", "foo(\nfoo(b"),
   ("c.js", ";"),
